@@ -137,12 +137,16 @@ func restrictForEntry(p *progSpec) {
 	if p.AutoRead == 2 {
 		p.AutoRead = 1
 	}
-	p.Retry, p.Max, p.NConds, p.NHooks = false, 0, 0, 0
+	if p.Retry { // only the client's common retry options reach a request the function creates itself
+		p.RetryLevel = "client"
+	}
 	p.ReqErr, p.OddForm, p.Unreplayable, p.Save, p.BodyMode = 0, false, false, false, "none"
-	p.Attempts = p.Attempts[:1]
+	for a := range p.Attempts {
+		at := &p.Attempts[a]
+		at.Req, at.Ctx, at.SleepCancel, at.Bi, at.GetBody = nil, "", false, 0, 0
+		at.T.B.WriteErr, at.T.B.CloseErr = 0, 0
+	}
 	at := &p.Attempts[0]
-	at.Req, at.Conds, at.Ctx, at.SleepCancel, at.Bi, at.GetBody = nil, nil, "", false, 0, 0
-	at.T.B.WriteErr, at.T.B.CloseErr = 0, 0
 	for i := range at.Cli {
 		if at.Cli[i].Digest { // SetCommonDigestAuth is fine at package level too
 			continue
@@ -290,6 +294,9 @@ func genPipeline(rng *hk.Rand) *progSpec {
 		} else {
 			nAtt = p.Max + 1
 		}
+	}
+	if p.Retry && rng.Chance(35) {
+		p.RetryLevel = "client"
 	}
 	if p.OnError {
 		p.HookMode = hk.Pick(rng, []string{"", "", "", "set", "clear", "panic"})
